@@ -1043,6 +1043,9 @@ impl<'a> Runner<'a> {
               for t in 0..ntasks {
                 let Some(rec) = self.ledger[t].as_ref() else { continue; };
                 if !rec.completed { continue; }
+                // A task that the session already holds as consistent (validated or executed earlier in this session)
+                // needs no further check: resources do not change while a session is open.
+                if executed.contains(&t) || validated_ok.contains(&t) { continue; }
                 for d in rec.deps.iter() {
                   if d.target == Target::Res(key) && !d.serials.iter().any(|s| checked.contains(s)) {
                     // After a checker error in this session the omission is (also) the error cutting validation short.
